@@ -223,7 +223,8 @@ def run(ck):
                 try:
                     got = float(miso.pressure_at(lf, loading_basis=rq_l[0], loading_unit=rq_l[1], material_basis=rq_m[0], material_unit=rq_m[1],
                                                  pressure_mode=rq_p[0], pressure_unit=rq_p[1]))
-                    exp = expected_pressure(P, lab, rq_p, pn)
+                    # the bare model's pressure at that loading (the round trip through loading() is ill-conditioned near saturation)
+                    exp = expected_pressure(P, lab, rq_p, float(miso.model.pressure(np.float64(nn))))
                     ok = close(got, exp, rel=1e-7)
                 except Exception as e:  # noqa
                     got, ok, exp = repr(e), False, None
